@@ -263,7 +263,8 @@ ADDED = {
            "well-formed states of a bounded shape (SpecAll), in every state whether reachable within the depth or not: agreement on all "
            "(state, operation) pairs is agreement on histories of any length. The wire-level table is also bound to the code: the commands each replayed call sent are compared by TLC with ClientOps.Cmds (spec/CacheWireTrace.tla; a difference with equal results is model drift). Item-style access (c[k], c[k] = v, del c[k]) as spellings of get/set/delete; a three-server HashClient (one UNIX-socket server) with multi-key calls whose keys interleave over the servers.",
     "C06": " Also: HashClient stacks that give up on their server while it comes back (socket bookkeeping clauses only); the repository's "
-           "integration tests as a trace source (see C01). The server's name re-pointed to another address before / after a failure: the next call resolves again and works (a connect to the stale address is the client's fault, not the environment's). Zero timeouts (non-blocking, not 'no timeout').",
+           "integration tests as a trace source (see C01). The server's name re-pointed to another address before / after a failure: the next call resolves again and works (a connect to the stale address is the client's fault, not the environment's). Zero timeouts (non-blocking, not 'no timeout'). Replies cut right after / one byte into every line (end of stream inside a data block). The fake kernel refuses to connect a socket of one address family to an address resolved for another (the later resolved address must be the one used).",
+    "C07": " Also: a VALUE header with one column too many for the command sent; stored items the library's own serializers cannot decode (empty / junk payload marked compressed, non-numeric integers, text that is not UTF-8) under CompressedSerde and pickle_serde.",
     "C08": " What escapes a pooled call (capacity error or the call's own error, never an error raised inside pool.py), calls rejected "
            "before any exchange next to ordinary calls (two preemptions), and 'a connection is given back only by its holder'. "
            "spec/PoolInd.tla states the same statement-level steps for threads that go on forever and Apalache checks that its invariant is "
@@ -279,13 +280,13 @@ ADDED = {
            "refused add_server / remove_server leave the rotation as it was. Apalache (symbolic) checks the placement lemmas and the as-coded "
            "fold for ALL natural-number score tables over 4 (thorough 5) nodes, every rotation and node order (spec/PlacementApa.tla). spec/ServerSpec.tla transcribes normalize_server_spec and the grammar of well-formed "
            "address spellings: TLC checks they agree on every string up to length 4 (thorough 6) over the address alphabet, and the real function "
-           "is run on every one of them (TLC judges the results; the as-coded prediction must match). Seeds other than 0 and copy / deepcopy of a hasher; upper-case letters in equivalent server spellings. bytes keys and compatibility characters in the placement keys (the score is murmur3 of the text '<node>-<key>' as Python formats it).",
-    "C12": " Multi-key answers have the shape of the per-key operation (gets_many through a pooled HashClient).",
+           "is run on every one of them (TLC judges the results; the as-coded prediction must match). Seeds other than 0 and copy / deepcopy of a hasher; upper-case letters in equivalent server spellings. bytes keys and compatibility characters in the placement keys (the score is murmur3 of the text '<node>-<key>' as Python formats it). (routing key, key) pairs through HashClient: placed by the routing key alone (routing keys of length 0, 1, 2 and longer; any key part).",
+    "C12": " Multi-key answers have the shape of the per-key operation (gets_many through a pooled HashClient). The str and the bytes spelling of one key on one client: each goes where placement puts that spelling, whatever was used before (the known finding about the two spellings living apart is matched by its clauses only).",
     "C13": " Also: connection-level errors that are no ConnectionError, server-answered errors that must not count as failures, per-server "
            "clients that honour ignore_exc, 'a server that answered is not sent the same request again in that call', and the result of "
            "multi-key reads under partial failure (written to by the harness afterwards: results are the caller's). 405 deterministic histories around the instants of eviction and revival; a quarter of them (and a fifth of the random ones) run the REAL Client on the fake network behind HashClient (servers that refuse, hang, or answer SERVER_ERROR; failing = what the environment says), a quarter use UNIX-socket servers, a quarter one single operation throughout; batches of one key.",
     "C15": " After the caller changed the object it got, deserialising the same stored form again must still return the stored value. Values after a refused one on the same serde object; text beginning with U+FEFF and other signature characters; small / negative ints. Floats that need 17 significant digits.",
-    "C16": " Also: keys named twice, dict-style access, construction with unusual spellings of the shared options (str / non-ASCII prefixes). Every combination of connect_timeout / timeout given, None or left out (what the first exchange connects and talks under); a falsy serde object.",
+    "C16": " Also: keys named twice, dict-style access, construction with unusual spellings of the shared options (str / non-ASCII prefixes). Every combination of connect_timeout / timeout given, None or left out (what the first exchange connects and talks under); a falsy serde object. Two more stacks: a HashClient (pooled or not) whose server failed once before every call and is retried by it after retry_timeout -- the 'retrying failed server' code path sends and returns what a plain Client does. An explicit flags=0 on every storage command under a serializer with flags of its own.",
     "C17": " The wrapped client is a subclass instance with the mapping protocol; rc[k] (hit and miss), rc[k] = v and del rc[k] go through the same contract. Half of the item-style executions wrap a client without the mapping protocol.",
     "C18": " Half of the executions use plain argument values (negative / zero / large expiry, True/False/None, ...) compared by type and value; "
            "a miss returns nothing (the harness writes into every result it gets).",
